@@ -220,6 +220,14 @@ class C14(pw.P21Check):
                 "b_ids": [[x["id"] for x in e["model"]["insts"]] for e in plan["extra"]],
                 "session_ids_after_each_step": [[g["id"] for g in d] for d in dumps]}
 
+    def plan_features(self, plan):
+        f = []
+        for e in plan["extra"]:
+            for x in pm.value_features(e["model"]["insts"]):
+                if x not in f:
+                    f.append(x)
+        return f
+
     def shrink(self, plan):
         if len(plan["extra"]) > 1:
             for keep in list_removals(plan["extra"], 1):
